@@ -15,6 +15,7 @@ extern "C" {
 #endif
 	int mmd_cli_main(int argc, char ** argv);
 }
+#include <errno.h>
 #include <string>
 #include "core.h"
 
@@ -24,6 +25,9 @@ static inline void apply_env(const Json & op) {
 		if (e.has("clock")) { g_sim.clock_now = e.geti("clock"); g_sim.clock_start = g_sim.clock_now; }
 		g_sim.clock_step = e.geti("clock_step", 0);
 		if (e.has("rand")) g_sim.rand_state = (uint64_t)e.geti("rand");
+		// what an earlier, unrelated call left in errno (the operation's thread is the one that calls apply_env); a reference starts with errno == 0
+		errno = (int)e.geti("errno", 0);
+		if (errno) g_sim.fired["stale_errno"]++;
 	}
 }
 static inline Json gen_env(Rng & r) {
@@ -46,6 +50,7 @@ static inline Json gen_env(Rng & r) {
 		e["clock"] = outside[r.below(6)];
 	}
 	if (r.chance(1, 5)) e["clock_step"] = r.range(-100000, 100000);
+	if (r.chance(1, 4)) { static const int errs[] = {ERANGE, EINTR, ENOENT, EAGAIN, EDOM, EINVAL}; e["errno"] = errs[r.below(6)]; }      // hidden state outside the library: libc's errno
 	e["rand"] = (int64_t)(r.next() >> 2);
 	return e;
 }
